@@ -1866,16 +1866,22 @@ def complex_cases(chk, tier, rng, svdmod, dcases=None, dmeta=None):
                 dcases.append(f"(DFlipC {len(dcases)}%nat {cmat_lit(U)} {cmat_lit(V)} {C.boolc(ub)} {cmat_lit(U2)} {cmat_lit(V2)})")
                 dmeta.append(dict(inp, call="svd_flip(complex)"))
     # svd_interface on well-conditioned complex matrices: Hermitian orthonormality, true singular values, error identity, sign convention
-    n_if, tries = (24 if tier == "quick" else 160), 0
+    n_if, tries = (30 if tier == "quick" else 172), 0
+    # round 8: the first accepted requests of every run are symeig_svd on strictly tall and strictly wide complex matrices (both Gram
+    # branches with their conjugate transposes are then exercised on every seed, not only when the random draw happens to produce them)
+    forced = [("symeig_svd", True), ("symeig_svd", False)] * (3 if tier == "quick" else 6)
     while n_if > 0 and tries < 5000:
         tries += 1
         d1, d2 = rng.randint(1, 5), rng.randint(1, 5)
+        if forced:
+            lo_, hi_ = sorted(rng.sample(range(1, 6), 2))
+            d1, d2 = (hi_, lo_) if forced[0][1] else (lo_, hi_)
         M = np.array([[cv() for _ in range(d2)] for _ in range(d1)])
         sig = np.linalg.svd(M, compute_uv=False)
         if sig.max() == 0 or sig.min() < 0.2 * sig.max() or (len(sig) > 1 and np.min(sig[:-1] - sig[1:]) < 0.05 * sig.max()):
             continue
         n_if -= 1
-        method = rng.choice(["truncated_svd", "symeig_svd", "randomized_svd"])
+        method = forced.pop(0)[0] if forced else rng.choice(["truncated_svd", "symeig_svd", "randomized_svd"])
         n = rng.randint(1, min(d1, d2))
         ub = rng.random() < 0.5
         kw = {"random_state": rng.randrange(10 ** 6)} if method == "randomized_svd" else {}
@@ -1917,7 +1923,9 @@ def complex_cases(chk, tier, rng, svdmod, dcases=None, dmeta=None):
         if msg:
             chk.finding(EP, inp, msg + " (complex input)", "C05_complex")
         # the same request inside Coq: Gaussian-rational model (Model/SvdComplex.v), LAPACK's / eigh's answer taped
-        if dcases is not None and method in ("truncated_svd", "symeig_svd") and finite3((np.abs(U), np.abs(S), np.abs(V))):
+        # (a triple of undocumented shapes is already a finding above; it is not indexed further)
+        if dcases is not None and method in ("truncated_svd", "symeig_svd") and finite3((np.abs(U), np.abs(S), np.abs(V))) \
+                and U.shape == (d1, n) and S.shape == (n,) and V.shape == (n, d2):
             if method == "truncated_svd":
                 a_, b_ = np.linalg.svd(M, full_matrices=True), np.linalg.svd(M, full_matrices=False)
                 tape, pre = f"(CTsvd {ctriple_lit(a_)} {ctriple_lit(b_)})", (b_[0][:, :n], b_[2][:n, :])
